@@ -26,6 +26,7 @@ type Built struct {
 	RootT  *tensor.Dense // root tensor (kept alive)
 	View   ref.View      // model: logical coordinate -> root cell
 	Vals   []interface{} // logical values, row-major
+	Twin   func() *Built // optional: builds the same state over a second, independent root
 }
 
 // L5 is the operand-layout set named by C06: contiguous, lazily transposed, sliced, step-sliced, materialised.
